@@ -111,6 +111,7 @@ static int lastpoll_fd[64], lastpoll_n;
 static int in_run, cb_in_call, intr_in_call, intr_pending_outside, stop_seen, wake_pending;
 static int have_nonzero, nonzero_rc, hard_err_in_call, allocfail_in_call, spin_done, spin_active;
 static int done_set_in_call;
+static int polls_in_call, cb_since_poll;
 static uint64_t X_ns;
 static int in_cb;
 static struct reg * cur_cb;
@@ -157,6 +158,9 @@ have_timer(uint64_t * min_hi)
 	return (h);
 }
 
+static int prev_first_select, last_poll_plain_eintr, inside_poll;
+static int in_first_select;	/* the poll being answered is the select that starts a pass of the loop */
+
 static void
 note_interrupt(void)
 {
@@ -164,8 +168,15 @@ note_interrupt(void)
 	/* Called after events_interrupt() was invoked, from whatever context. */
 	if (in_run) {
 		intr_in_call = 1;
-		if (!in_cb && stop_seen == 0)
-			stop_seen = 2;	/* one more callback may run */
+		if (!in_cb && stop_seen == 0) {
+			/*
+			 * A request made while no callback runs.  If it arrives inside the select that starts a
+			 * pass of the loop, the loop tests the flag before it dispatches anything: nothing more
+			 * may run.  If it arrives inside the zero-timeout re-poll (or at a clock read), the
+			 * dispatch that follows is not guarded: one more callback may run.
+			 */
+			stop_seen = (inside_poll && in_first_select) ? 1 : 2;
+		}
 	} else
 		intr_pending_outside = 1;
 }
@@ -713,6 +724,8 @@ the_callback(void * cookie)
 	}
 	r->live = 0;
 	cb_in_call++;
+	cb_since_poll++;
+	in_first_select = 0;
 	wake_pending = 0;
 	if (draining)
 		R->cnt[N_DRAIN_FIRED]++;
@@ -734,8 +747,23 @@ the_callback(void * cookie)
 }
 
 /* ---------- poll ---------- */
+static int poll_impl(struct pollfd *, nfds_t, int);
+
 int
 __wrap_poll(struct pollfd * fds, nfds_t n, int T)
+{
+	int rc, e;
+
+	inside_poll = 1;
+	rc = poll_impl(fds, n, T);
+	e = errno;
+	inside_poll = 0;
+	errno = e;
+	return (rc);
+}
+
+static int
+poll_impl(struct pollfd * fds, nfds_t n, int T)
 {
 	uint64_t mh, start;
 	int blocked = 0, fi, d, i;
@@ -745,6 +773,20 @@ __wrap_poll(struct pollfd * fds, nfds_t n, int T)
 
 	simalloc_depth = 0;
 	R->cnt[N_POLL]++;
+	/*
+	 * Which select is this?  A pass of the loop is: first select, then (after each callback, or when nothing was
+	 * cached) a zero-timeout re-poll.  A plain EINTR makes the library repeat the same select.
+	 */
+	if (last_poll_plain_eintr)
+		in_first_select = prev_first_select;
+	else if (polls_in_call == 0)
+		in_first_select = 1;
+	else
+		in_first_select = (cb_since_poll == 0 && !prev_first_select);
+	prev_first_select = in_first_select;
+	last_poll_plain_eintr = 0;
+	polls_in_call++;
+	cb_since_poll = 0;
 	if (R->cnt[N_POLL] > 3000000) {
 		char o[32];
 
@@ -802,6 +844,7 @@ __wrap_poll(struct pollfd * fds, nfds_t n, int T)
 	}
 	if (fk == 1) {
 		R->cnt[N_EINTR]++;
+		last_poll_plain_eintr = 1;
 		TR(0xF1, 0, 0, "  -> EINTR");
 		now_ns += 1000;
 		errno = EINTR;
@@ -930,10 +973,11 @@ __wrap_poll(struct pollfd * fds, nfds_t n, int T)
 static void
 run_once(int spin, const struct pline * tape, int sigclk)
 {
-	int R0, intr_before, rc, i, f0;
+	int R0, R0imm, intr_before, rc, i, f0;
 
 	apply_env();
 	R0 = pending_imm();
+	R0imm = R0;
 	for (i = 0; i < nreg; i++)
 		if (regs[i].live && regs[i].kind == K_TMR && regs[i].dl_hi <= now_us())
 			R0 = 1;
@@ -948,8 +992,13 @@ run_once(int spin, const struct pline * tape, int sigclk)
 	done_set_in_call = 0;
 	X_ns = now_ns;
 	intr_before = intr_pending_outside;
+	polls_in_call = 0;
+	cb_since_poll = 0;
+	in_first_select = 0;
+	prev_first_select = 0;
+	last_poll_plain_eintr = 0;
 	if (intr_before)
-		stop_seen = 2;		/* at most one callback may still run */
+		stop_seen = R0imm ? 2 : 1;	/* with an immediate pending the first one still runs; otherwise nothing may */
 	cur_tape = tape;
 	tape_pos = 0;
 	clock_reads_in_step = 0;
